@@ -4,6 +4,7 @@ import (
 	"encoding/json"
 	"flag"
 	"fmt"
+	"go/types"
 	"os"
 	"path/filepath"
 	"sort"
@@ -302,9 +303,13 @@ func (g *Global) runUnitOpts(u *Unit, timeout int, workers chan struct{}, ro run
 		vc.finishAxioms()
 	}()
 	res.VC = vc
+	vc.obls = append(vc.obls, g.footprintObligations(vc, u, fn)...)
 	res.Obls = vc.obls
 	var wg sync.WaitGroup
 	for _, o := range vc.obls {
+		if o.Static {
+			continue
+		}
 		if ro.only != nil && !ro.only[o.Name] {
 			o.Status = "unattempted"
 			continue
@@ -1047,7 +1052,11 @@ func cmdUnit(args []string) int {
 			for _, o := range r.Obls {
 				fmt.Printf("   %-11s %-7s %5.2fs %s   [%s]\n", o.Status, o.Result.Solver, o.Result.Seconds, o.Name, o.Pos)
 				if o.Status != "discharged" && o.Result.Status == "sat" {
-					fmt.Println("      cex:", strings.ReplaceAll(modelInputs(o), "\n", "\n           "))
+					if o.Static {
+						fmt.Println("      why:", strings.ReplaceAll(o.Result.Output, "\n", "\n           "))
+					} else {
+						fmt.Println("      cex:", strings.ReplaceAll(modelInputs(o), "\n", "\n           "))
+					}
 				}
 				if o.Status == "undecided" && o.Candidate != "" {
 					oo := *o
@@ -1115,7 +1124,7 @@ func cmdWrites(args []string) int {
 				ws, all := g.fnWrites(fn, fn.Pkg.Pkg)
 				fmt.Printf("== %s all=%v (%d keys, %.1fs)\n", k, all, len(ws), time.Since(start).Seconds())
 				for _, w := range sortedKeys(ws) {
-					if strings.Contains(w, "corazawaf") || strings.Contains(w, "$") || strings.HasPrefix(w, "gh!") {
+					if os.Getenv("GOVC_ALLKEYS") != "" || strings.Contains(w, "corazawaf") || strings.Contains(w, "$") || strings.HasPrefix(w, "gh!") {
 						fmt.Println("   ", w)
 					}
 				}
@@ -1150,4 +1159,90 @@ func cmdMemo(args []string) int {
 		}
 	}
 	return 0
+}
+
+// footprintObligations: `excludes T1, T2, globals` -- the inferred write footprint of the function (its own stores
+// plus those of everything it may call, objects it allocates itself excepted) contains no field of the named struct
+// types (including the structs embedded in them by value) and no package-level variable. Decided by the effect
+// inference, not by a solver.
+func (g *Global) footprintObligations(vc *FnVC, u *Unit, fn *ssa.Function) []*Obligation {
+	if len(u.Excludes) == 0 || fn.Pkg == nil {
+		return nil
+	}
+	ws, all := g.fnWrites(fn, fn.Pkg.Pkg)
+	env := vc.envAt(&State{m: map[string]string{}}, nil)
+	var out []*Obligation
+	for _, item := range u.Excludes {
+		var prefixes []string
+		if item == "globals" {
+			prefixes = []string{"G!"}
+		} else if strings.HasPrefix(item, "pkg:") {
+			// no field of any struct type declared in that package
+			if g.pkgByPath(item[4:]) == nil {
+				vc.contractError("excludes %s: no such package", item)
+				continue
+			}
+			prefixes = []string{"F!" + item[4:] + "."}
+		} else {
+			t, err := env.parseType(item)
+			if err != nil {
+				vc.contractError("excludes %s: %v", item, err)
+				continue
+			}
+			var add func(t types.Type, depth int)
+			add = func(t types.Type, depth int) {
+				st, ok := t.Underlying().(*types.Struct)
+				if !ok || depth > 4 {
+					return
+				}
+				prefixes = append(prefixes, "F!"+typeName(t)+"!")
+				for i := 0; i < st.NumFields(); i++ {
+					if isStruct(st.Field(i).Type()) {
+						add(st.Field(i).Type(), depth+1)
+					}
+				}
+			}
+			add(t, 0)
+		}
+		var bad []string
+		for _, k := range sortedKeys(ws) {
+			for _, p := range prefixes {
+				if strings.HasPrefix(k, p) {
+					bad = append(bad, k)
+				}
+			}
+		}
+		o := &Obligation{Name: unitKey(u.Pkg, u.Func) + "/footprint/excludes/" + item + "#1", Class: "footprint", Unit: u, Fn: fn.String(),
+			Text: "the write footprint contains nothing of " + item, Static: true, Raw: "; decided by write-set inference\n(assert false)\n(check-sat)\n"}
+		o.Result = SolverResult{Solver: "effect-inference", Status: "unsat"}
+		o.Status = "discharged"
+		if all || len(bad) > 0 {
+			o.Status = "failed"
+			o.Result.Status = "sat"
+			why := "the function may call code with unknown effects"
+			if len(bad) > 0 {
+				why = "written: " + strings.Join(bad, ", ") + "\n" + strings.Join(g.whyWrites(fn, bad[0]), "\n  ")
+			}
+			o.Result.Output = why
+			o.Raw = "; " + strings.ReplaceAll(why, "\n", "\n; ") + "\n(assert true)\n(check-sat)\n"
+		}
+		out = append(out, o)
+	}
+	return out
+}
+
+// whyWrites recomputes the write set of fn recording the call chain through which key is reached.
+func (g *Global) whyWrites(fn *ssa.Function, key string) []string {
+	g.mu.Lock()
+	delete(g.writes, writeKey{fn, fn.Pkg.Pkg})
+	g.traceSub = key
+	g.traceOut = nil
+	g.mu.Unlock()
+	g.fnWrites(fn, fn.Pkg.Pkg)
+	g.mu.Lock()
+	out := g.traceOut
+	g.traceSub = ""
+	g.traceOut = nil
+	g.mu.Unlock()
+	return out
 }
